@@ -51,6 +51,8 @@ structure World where
   normP : Str → Norm
   prepass : Str → Str
   lower : Str → Str
+  /-- start offsets of the patternSimpleTable matches (`FindAllStringIndex`), for the fast-path guard -/
+  simpleStarts : Str → List Nat
 
 def dot : Char := '.'
 def defaultDB : Str := "default".toList
@@ -114,9 +116,13 @@ def extractSkips (W : World) (ctes : List Str) (I : Idents) (m : Match) : Bool :
   let t := W.lower name
   skipConv t || ctes.contains t || ctes.contains (W.lower m.g1) || dotAt m.rest || callAtX m.rest
 
-def simpleCand (W : World) (I : Idents) (m : Match) : Cand :=
+/-- `fold` = the pre-02701ef code, which lower-cased the table in the `seen` key of bare references -/
+def simpleCandP (fold : Bool) (W : World) (I : Idents) (m : Match) : Cand :=
   let name := resolveRaw I m.g1
-  { key := defaultDB ++ dot :: W.lower name, ref := ⟨defaultDB, name⟩ }
+  { key := defaultDB ++ dot :: (if fold then W.lower name else name), ref := ⟨defaultDB, name⟩ }
+
+def simpleCand (W : World) (I : Idents) (m : Match) : Cand :=
+  simpleCandP Arc.Generated.C14.seenKeyFoldsCase W I m
 
 def candidates (W : World) (n : Norm) : List Cand :=
   let ctes := cteNames W n.text
@@ -181,10 +187,12 @@ def rewNoHdr (W : World) (n : Norm) : List Ref :=
   ++ ((W.findAll .simple T.t2).filter (rewriteKeeps W ctes n.idents)).map (fun m => ⟨defaultDB, resolveV n.idents m.g1⟩)
   ++ ((W.findAll .joinSimple T.t3).filter (rewriteKeeps W ctes n.idents)).map (fun m => ⟨defaultDB, resolveV n.idents m.g1⟩)
 
-def gateLit : Str := Arc.Generated.C14.headerCteGateLiteral.toList
-/-- header path: `if strings.Contains(sqlLower, "with ") { cteNames = extractCTENames(sql) }` -/
-def cteNamesHdr (W : World) (t : Str) : List Str :=
-  if Arc.Generated.C14.headerCteGated && !(containsSub gateLit (W.lower t)) then [] else cteNames W t
+def gateLit : Str := "with ".toList
+/-- header path; `gated` = the pre-04fa395 code `if strings.Contains(sqlLower, "with ") { cteNames = extractCTENames(sql) }` -/
+def cteNamesHdrP (gated : Bool) (W : World) (t : Str) : List Str :=
+  if gated && !(containsSub gateLit (W.lower t)) then [] else cteNames W t
+
+def cteNamesHdr (W : World) (t : Str) : List Str := cteNamesHdrP Arc.Generated.C14.headerCteGated W t
 
 def textsHdr (W : World) (n : Norm) : Texts :=
   let ctes := cteNamesHdr W n.text
@@ -210,9 +218,15 @@ def afterFirst (needle : Str) : Str → Option Str
 def fastNeedle : Str := Arc.Generated.C14.fastPathNeedle.toList
 def isWordC (c : Char) : Bool := c.isAlphanum || c == '_'
 
-/-- `isSingleTableQuery(sqlLower)` -/
-def isSingleTable (l : Str) : Bool :=
-  countSub fastNeedle l == 1 && !(containsSub " join ".toList l) &&
+/-- `isSingleTableQuery(sqlLower)`; `guarded` = the 53c9b19 guard: the extractor's own regex sees exactly one
+reference, at the offset of the substring `from `, and nothing looks like a CTE name -/
+def isSingleTableP (guarded : Bool) (W : World) (l : Str) : Bool :=
+  countSub fastNeedle l == 1 &&
+  (!guarded ||
+    (match afterFirst fastNeedle l with
+     | some r => W.simpleStarts l == [l.length - r.length - fastNeedle.length] && (W.findAll .cte l).all (fun m => m.g1.isEmpty && m.g2.isEmpty)
+     | none => false)) &&
+  !(containsSub " join ".toList l) &&
   (match afterFirst fastNeedle l with
    | some r => !(headIs '(' (r.dropWhile (fun c => c == ' ' || c == '\t' || c == '\n')))
    | none => true)
@@ -224,8 +238,10 @@ def fastGuards (l : Str) : Bool :=
   !(containsSub "--".toList l) && !(containsSub "/*".toList l) &&
   !(["extract", "substring", "trim", "overlay"].any (fun w => containsSub w.toList l))
 
-def fastPathTaken (W : World) (s : Str) : Bool :=
-  Arc.Generated.C14.headerFastPath && isSingleTable (W.lower s) && fastGuards (W.lower s)
+def fastPathTakenP (guarded : Bool) (W : World) (s : Str) : Bool :=
+  Arc.Generated.C14.headerFastPath && isSingleTableP guarded W (W.lower s) && fastGuards (W.lower s)
+
+def fastPathTaken (W : World) (s : Str) : Bool := fastPathTakenP Arc.Generated.C14.fastPathGuarded W s
 
 /-- the table `convertSingleTableQuery` splices: identifier bytes after the first `from ` -/
 def fastTable (W : World) (s : Str) : Option Str :=
